@@ -42,7 +42,7 @@ MANIFEST = dict(
   note=TRUST + "covered by the correspondence and the oracle only (modelled, no theorem): the two-result indexedSubset on LabeledData parts (`subc`), "
        "Data(size, element, batchSize) batch layout beyond its sum, shapes after transform; sharing of batches between datasets (shared_ptr) and the storage "
        "layout of sparse batches are not modelled; WeightedLabeledData is covered by the correspondence only (same model, weights checked by the oracle; "
-       "ops new/repartition/splitBatch/splitAtElement/splice/append/indexedSubset/shuffle). Findings F1, F9, F10, F13 (findings_proposed/C03.md) make the check print "
+       "ops new/repartition/splitBatch/splitAtElement/splice/append/indexedSubset/shuffle). Open findings F1, F10, F13 (findings_proposed/C03.md; F9 was repaired upstream meanwhile) make the check print "
        "VIOLATION on the unrepaired tree.",
   technique="Lean 4 proofs (induction over partitions and operation histories) on a model whose batch arithmetic is regenerated from the C++ "
             "on every run + differential correspondence with the real containers (ASan/UBSan)",
